@@ -667,7 +667,16 @@ def run_unit(prop_id, unit, tier, seed=0):
         res["obligations"] += len(obs)
         if not obs:
             continue
+        obs_all = obs
         # vacuity witness: the path is reachable
+        # obligations that are literally true on this path (concrete comparisons) need no solver
+        pending = []
+        for o in obs:
+            if z3.is_true(o.prop) or z3.is_true(z3.simplify(o.prop)):
+                res["discharged"] += 1
+            else:
+                pending.append(o)
+        obs_all, obs = obs, pending
         pending = list(obs)
         r_all = None
         if unit.group and len(obs) > 1:
@@ -722,9 +731,9 @@ def run_unit(prop_id, unit, tier, seed=0):
                 res["unconfirmed"].append({"unit": unit.name, "obligation": ob.name, "why": "sat model(s) did not reproduce on the float code"})
                 res["incomplete"].append("sat but not reproduced: %s" % ob.name)
         if nontrivial_path:
-            res["nontrivial"] += len(obs)
-        if len(res["samples"]) < 2:
-            o = obs[0]
+            res["nontrivial"] += len(obs_all)
+        if len(res["samples"]) < 2 and obs_all:
+            o = (obs or obs_all)[0]
             res["samples"].append({"unit": unit.name, "obligation": o.name, "path_condition": [str(c).replace("\n", " ")[:160] for c in pr.path[:6]],
                                    "formula": str(o.prop).replace("\n", " ")[:300], "verdict": "unsat (holds for all inputs on this path)" if not pending or r_all == "unsat" else "see counts"})
     # reachability witness (vacuity guard): at least one completed path with satisfiable path condition
